@@ -8,7 +8,7 @@ CHECKS = {'C19': {'level': 'model_checking',
                       'assignment histories, every history replayed on a fresh real parameter next to a reference '
                       'model written from the statement; bounded-exhaustive enumeration of every id of the 11 factories',
          'level_text': 'for each of 9 parameter shapes (enum, integer and scalar with <=/< bounds, integer and scalar '
-                       'pairs with ordering constraints, string) the state graph over a 24..74-operation alphabet '
+                       'pairs with ordering constraints, string) the state graph over a 24..56-operation alphabet '
                        '(int/float/pair/string/enum assignments incl. NaN, inf, boundary +-1 ulp, garbage text, '
                        'write+read, copy) is explored until closed (the canonical state is the complete object state, '
                        'so the closed graph covers histories of any length over the alphabet); in addition every '
